@@ -22,6 +22,7 @@ package main
 
 import (
 	"fmt"
+	"go/types"
 	"go/token"
 	"os"
 	"runtime/debug"
@@ -82,6 +83,7 @@ func (m *Module) enableInlining() {
 	if m.anchors == nil {
 		m.anchors = map[*ssa.Function]bool{}
 	}
+	m.forwardLocalStores()
 	m.findDeferClosures()
 	inModule := map[*ssa.Function]bool{}
 	for _, fn := range m.Funcs {
@@ -190,6 +192,48 @@ func (m *Module) enableInlining() {
 					}
 				}
 			}
+		}
+	}
+}
+
+// forwardLocalStores replaces a load of a local variable by the value stored
+// into it earlier in the same basic block when nothing in between can change
+// the variable (no call, which could run a closure that captures it, and no
+// other store to it). `err = f(); if err != nil` then tests f's result itself.
+func (m *Module) forwardLocalStores() {
+	for _, fn := range m.Funcs {
+		if len(fn.Blocks) == 0 {
+			continue
+		}
+		// what is known at the end of each block; a block with exactly one
+		// predecessor starts with what its predecessor ended with
+		end := map[*ssa.BasicBlock]map[*ssa.Alloc]ssa.Value{}
+		for _, b := range fn.DomPreorder() {
+			known := map[*ssa.Alloc]ssa.Value{}
+			if len(b.Preds) == 1 {
+				for k, v := range end[b.Preds[0]] {
+					known[k] = v
+				}
+			}
+			for _, in := range b.Instrs {
+				switch x := in.(type) {
+				case *ssa.Store:
+					if cell, ok := cellOf(x.Addr); ok {
+						known[cell] = x.Val
+					}
+				case *ssa.UnOp:
+					if x.Op == token.MUL {
+						if cell, ok := cellOf(x.X); ok {
+							if v, ok := known[cell]; ok && types.Identical(v.Type(), x.Type()) {
+								replaceUses(x, v)
+							}
+						}
+					}
+				case ssa.CallInstruction:
+					known = map[*ssa.Alloc]ssa.Value{}
+				}
+			}
+			end[b] = known
 		}
 	}
 }
